@@ -135,6 +135,7 @@ def resume_cases(tier, seed):
 def e2e_monitor(case, il, sl):
     t = case.ops[0].split()
     bound, high, low, threads, nmsg, msgsize, stall = map(int, t[1:8])
+    eintr = any(x.startswith("eintr=") for x in t[9:])
     d = {}
     for l in il:
         if l and not l.startswith("#"):
@@ -143,6 +144,11 @@ def e2e_monitor(case, il, sl):
         return ("with mem_channel_bound = %d the first call on a freshly opened channel never returns (the publisher is blocked for good although the transport accepts data)" % bound, "c18-bound0-hang")
     if "stall" not in d:
         return ("scenario did not run: %s" % il[:2], "c18-e2e-open")
+    wp = d.get("wire-prefix", "")
+    if "ok=t" not in wp:
+        return ("what reached the transport is not a clean prefix of the published messages (whole frames, per channel 0,1,2,... intact): %s" % wp, "c18-wire-garbled")
+    if eintr:
+        return None      # the transport failed on purpose: the connection may die; only the wire is judged
     kv = dict(x.split("=") for x in d["stall"].split()[1:])
     acc, acc_before, wr = int(kv["accepted"]), int(kv["accepted-500ms-earlier"]), int(kv["written-during-stall"])
     total = threads * nmsg
@@ -170,7 +176,22 @@ def gen_e2e(tier, seed):
         for _ in range(12):
             high = rng.choice([1000, 20000, 65536])
             cfgs.append((rng.choice([1, 2, 16]), high, rng.choice([0, high // 2]), rng.randint(1, 8), rng.randint(50, 300), rng.choice([100, 1000, 5000]), rng.choice([1200, 2000]), rng.choice("tf")))
-    return [Case("e%d" % i, ["run %d %d %d %d %d %d %d %s" % c], {"keep_prefix": 0}) for i, c in enumerate(cfgs)]
+    cases = [Case("e%d" % i, ["run %d %d %d %d %d %d %d %s" % c], {"keep_prefix": 0}) for i, c in enumerate(cfgs)]
+    cases += wire_cases(tier)
+    return cases
+
+
+def wire_cases(tier):
+    """Deep backlogs below the high-water mark released at once through large partial writes, and a
+    write call failing with EINTR after partial writes (shared with C01 / C02)."""
+    cs = ["run 16 16777216 0 2 48 65536 800 f maxwrite=262144 release=all",       # 6 MiB queued, taken 256 KiB per call
+          "run 16 16777216 0 1 12 131000 600 f maxwrite=300000 release=all",      # 1.5 MiB
+          "run 16 16777216 0 1 40 10000 500 f maxwrite=5000 release=all eintr=3",
+          "run 16 16777216 0 2 30 3000 500 f maxwrite=700 release=all eintr=1"]
+    if tier != "quick":
+        cs += ["run 16 16777216 0 3 80 65536 1200 f maxwrite=1048576 release=all", "run 16 16777216 0 1 1 6000000 500 f maxwrite=262144 release=all",
+               "run 4 16777216 0 2 200 9000 600 f maxwrite=4096 release=all eintr=7", "run 16 16777216 1048576 2 120 65536 1500 f maxwrite=131072 release=all"]
+    return [Case("w%d" % i, [c], {"keep_prefix": 0}) for i, c in enumerate(cs)]
 
 
 def suites(tier, seed):
@@ -180,5 +201,5 @@ def suites(tier, seed):
         Suite("resume", "machine", lambda: resume_cases(tier, seed), monitor=monitor, nontrivial=nontrivial, canon=mg.canon_nondet, candidate_ok=mg.candidate_ok,
               rule="directed: 1-4 channels, throttle, up to 8 of {submit, open a new channel, poll, server closes a channel}, resume, poll: the real poll must report exactly the non-empty queues"),
         Suite("stall-e2e", "bp", lambda: gen_e2e(tier, seed), monitor=e2e_monitor, nontrivial=lambda c, il: True, compare=False, shards=4, timeout=300,
-              rule="real connection + I/O thread over the mock transport: (bound, high, low, publisher threads, messages, size) in {(1,1000,0,2,120,300), (2,20000,10000,3,150,1000), (16,65536,0,4,200,800)} (+12 random tunings in thorough), transport accepts nothing for 1.2-2 s then drains in random bursts, a channel opened while throttled"),
+              rule="real connection + I/O thread over the mock transport: (bound, high, low, publisher threads, messages, size) in {(1,1000,0,2,120,300), (2,20000,10000,3,150,1000), (16,65536,0,4,200,800)} (+12 random tunings in thorough), transport accepts nothing for 1.2-2 s then drains in random bursts, a channel opened while throttled; plus deep backlogs (1.5 / 6 MiB, below the high-water mark) released at once through partial writes of 256 KiB, and a write call failing with EINTR after partial writes (what reached the wire must be a clean prefix)"),
     ]
